@@ -583,6 +583,64 @@ def _search_misc(ctx, work):
             if not ok:
                 ctx.fail(f"unknown-format:{entry}:{kw.get('fmt')}", f"{entry}({kw}): {got}, target {spec!r} -> {state()!r}",
                          {"kind": "unknown-format", "entry": entry, "kw": kw, "fs": spec})
+    # arbitrary exception classes out of prepare_dump / a property getter of a real format (pre-flight funnel)
+    import iodata.formats.molden as molden_mod
+    import iodata.formats.xyz as xyz_mod
+
+    wdata = variant(_load_base("molden"))
+    xdata = variant(_load_base("xyz"))
+    classes = [TypeError, KeyError, IndexError, AttributeError, ZeroDivisionError, RuntimeError, StopIteration,
+               OSError, AssertionError, fl.Boom]
+    orig = molden_mod.prepare_dump
+    try:
+        for cls in classes:
+            def bad_prepare(data, allow_changes, filename, cls=cls):
+                raise cls("injected")
+            molden_mod.prepare_dump = bad_prepare
+            for spec in (None, "OLD"):
+                setfs(spec)
+                try:
+                    dump_one(wdata, path, fmt="molden")
+                    got = "no exception"
+                except BaseException as exc:  # noqa: BLE001
+                    got = type(exc).__name__
+                ok = got == "PrepareDumpError" and state() == spec
+                ctx.count("prepare-raises", ["molden", cls.__name__, spec], "ok" if ok else "bad")
+                if not ok:
+                    ctx.fail(f"prepare-raises:dump_one:{got}", f"molden.prepare_dump raising {cls.__name__}: dump_one gave {got}, "
+                             f"target {spec!r} -> {state()!r}", {"kind": "prepare-raises", "cls": cls.__name__, "fs": spec})
+    finally:
+        molden_mod.prepare_dump = orig
+    # the same through dump_many (xyz gets a temporary prepare_dump): first frame / later frame
+    try:
+        for cls in classes:
+            for bad_index in (0, 1, 2):
+                calls = {"n": 0}
+
+                def bad_prepare(data, allow_changes, filename, cls=cls, bad_index=bad_index, calls=calls):
+                    calls["n"] += 1
+                    if calls["n"] == bad_index + 1:
+                        raise cls("injected")
+                    return data
+                xyz_mod.prepare_dump = bad_prepare
+                setfs("OLD")
+                try:
+                    dump_many(iter([xdata, xdata, xdata]), path, fmt="xyz")
+                    got = "no exception"
+                except BaseException as exc:  # noqa: BLE001
+                    got = type(exc).__name__
+                if bad_index == 0:
+                    ok = got == "PrepareDumpError" and state() == "OLD"
+                else:
+                    ok = got in ("PrepareDumpError", "DumpError")
+                ctx.count("prepare-raises-many", [cls.__name__, bad_index], "ok" if ok else "bad")
+                if not ok:
+                    ctx.fail(f"prepare-raises:dump_many:frame{min(bad_index, 1)}:{got}",
+                             f"prepare_dump raising {cls.__name__} for frame {bad_index} of dump_many gave {got}, target 'OLD' -> {state()!r}",
+                             {"kind": "prepare-raises-many", "cls": cls.__name__, "idx": bad_index})
+    finally:
+        if "prepare_dump" in xyz_mod.__dict__:
+            del xyz_mod.prepare_dump
     # fault injection: an exception at the k-th write call of every real writer, every k
     rng = ctx.rng
     jobs = []
